@@ -193,6 +193,12 @@ func (la *ShareAvailability) storeResult(ctx context.Context, key datastore.Key,
 	if err := la.ds.Put(ctx, key, data); err != nil {
 		return fmt.Errorf("store sampling result: %w", err)
 	}
+	// Write the result through to the underlying datastore right away. A result that only sits
+	// in the write buffer is lost when the node stops without Close, and the coordinates would
+	// be drawn anew on the next start.
+	if err := la.ds.Flush(ctx); err != nil {
+		return fmt.Errorf("flush sampling result: %w", err)
+	}
 	return nil
 }
 
